@@ -394,7 +394,7 @@ def _parse_with_chunks(chunks):
     guard = 0
     while W.deliver_next():
         guard += 1
-        if guard > 50:
+        if guard > 2000:
             raise HarnessError("runaway")
     if not W.sse_task.finished:
         return None, "stream-reader-did-not-finish"
@@ -432,6 +432,41 @@ def chunking(kinds, crlf, i, d):
             exp.append(("message", NOTE1))
     if whole != exp:
         return "events-not-delivered-exactly-once-in-order"
+    return "ok"
+
+
+from harness import sizes as _sizes  # noqa: E402
+
+_sizes.size_cases(70000, extra=_sizes.ENV_SIZES)
+_sizes.size_cases(140000, extra=_sizes.ENV_SIZES)
+
+
+def chunking_long(k, pat, cutsel, lim=70000):
+    """size dimension: one event whose data line carries a string of c-1, c, c+1 characters (c: integer constants of
+    the source and environment sizes), followed by a small event; cut (0) three bytes before the end of the long
+    line, (1) in its middle, (2) into 8 KiB reads, (3) into 1000-byte reads up to 64 reads then the rest,
+    (4) not at all"""
+    n = _sizes.pick(_sizes.size_cases(lim, extra=_sizes.ENV_SIZES), k)
+    data = '{"jsonrpc":"2.0","method":"notifications/message","params":{"d":"' + _sizes.long_text(n, pat) + '"}}'
+    head = ("event: message\ndata: " + data).encode("utf-8")
+    text = head + b"\n\n" + ("event: message\ndata: " + NOTE1 + "\n\n").encode("utf-8")
+    if cutsel == 0:
+        c = max(len(head) - 3, 0)
+        parts = [text[:c], text[c:]]
+    elif cutsel == 1:
+        c = len(head) // 2
+        parts = [text[:c], text[c:]]
+    elif cutsel == 2:
+        parts = [text[a:a + 8192] for a in range(0, len(text), 8192)]
+    elif cutsel == 3:
+        parts = [text[a:a + 1000] for a in range(0, min(len(text), 64000), 1000)] + ([text[64000:]] if len(text) > 64000 else [])
+    else:
+        parts = [text]
+    got, r = _parse_with_chunks(parts)
+    if r != "ok":
+        return r
+    if got != [("message", data), ("message", NOTE1)]:
+        return "long-event-not-delivered-exactly-once-in-order:%d" % len(got)
     return "ok"
 
 
